@@ -139,5 +139,7 @@ Proof.
   - inversion E; subst. apply andb_true_iff; split; [apply H | apply IH]; auto.
 Qed.
 
+Definition mem (x : nat) (l : list nat) : bool := existsb (Nat.eqb x) l.
+
 (** ascending list [0; 1; ...; n-1] *)
 Definition iota (n : nat) : list nat := seq 0 n.
